@@ -276,6 +276,48 @@ def unreadable_subfolder_family(run, binary):
         shutil.rmtree(base, ignore_errors=True)
 
 
+def few_cpus_family(run, binary):
+    """The walk with the process confined to 1, 2, 3 and 4 CPUs (taskset): the number of walker threads is chosen from the number of CPUs the
+    process may use; whatever that number is, the listing must be complete (a choice of 0 threads ends the listing at once, empty and
+    properly terminated)."""
+    import shutil, tempfile
+    import e2e
+    if not shutil.which('taskset'):
+        run.count('few-cpus:taskset-missing(skipped)')
+        return
+    try:
+        avail = sorted(os.sched_getaffinity(0))
+    except AttributeError:
+        return
+    T = 1_700_000_000_000_000_000
+    base = tempfile.mkdtemp(prefix='c17cpu_', dir=vlib.CACHE)
+    try:
+        for ncpu in (1, 2, 3, 4):
+            if ncpu > len(avail):
+                continue
+            root = os.path.join(base, 'n%d' % ncpu)
+            os.makedirs(root)
+            src = {'': {'k': 'dir'}}
+            for i in range(4):
+                src['d%d' % i] = {'k': 'dir'}
+                for j in range(3):
+                    src['d%d/f%d' % (i, j)] = {'k': 'file', 'data': b'x%d' % j, 'mtime_ns': T + j}
+            e2e.build_tree(os.path.join(root, 's'), src)
+            r = e2e.run_cli(binary, [os.path.join(root, 's') + '/', os.path.join(root, 'd') + '/'], timeout=60,
+                            prefix=['taskset', '-c', ','.join(str(c) for c in avail[:ncpu])])
+            s1, d1 = e2e.snapshot(os.path.join(root, 's')), e2e.snapshot(os.path.join(root, 'd'))
+            run.count('few-cpus:%d:exit:%s' % (ncpu, r['exit']))
+            run.case(('few-cpus', ncpu), True, sample={'cpus': ncpu, 'exit': r['exit'], 'entries_copied': len(d1) - 1})
+            run.traces_validated += 1
+            if r['timed_out']:
+                run.fail('C17 (process confined to %d CPU(s)): the walk did not finish' % ncpu, {'kind': 'few-cpus', 'cpus': ncpu})
+            elif r['exit'] == 0 and d1 != s1:
+                run.fail('C17 (process confined to %d CPU(s)): the run reported success but only %d of %d entries were listed and copied' % (ncpu, len(d1) - 1, len(s1) - 1),
+                         {'kind': 'few-cpus', 'cpus': ncpu, 'exit': r['exit'], 'text': (r['stdout'] + r['stderr'])[-300:]})
+    finally:
+        shutil.rmtree(base, ignore_errors=True)
+
+
 def spawn_failure_family(run, binary):
     """A thread that cannot be started (pthread_create fails with EAGAIN: the process is at its thread or memory limit) at any of the
     thread creations of a local sync - the two doer threads, the walker threads of either side, the progress thread.  The property's
@@ -335,6 +377,7 @@ def check(run):
     run_all(run, cases, binary, jbin)
     spawn_failure_family(run, binary)
     unreadable_subfolder_family(run, binary)
+    few_cpus_family(run, binary)
     return run.finish(search=None)     # every case already ran the property oracle on the implementation
 
 
